@@ -197,6 +197,8 @@ class AsyncServer(base_server.BaseServer):
                     del self.sockets[sid]
         else:
             clients = self.sockets.copy()
+            if not clients:
+                return
             await asyncio.wait([
                 asyncio.create_task(client.close(
                     reason=self.reason.SERVER_DISCONNECT))
